@@ -3,6 +3,7 @@ CONSTANTS
   BufPairs <- QuickBufs
   Offsets <- QuickOffsets
   Stride = 1
+  FarBases <- QuickFarBases
 CONSTRAINT Export
 INVARIANT ImplTimeOnly
 INVARIANT ImplBoxes
@@ -13,6 +14,7 @@ INVARIANT LawSym
 INVARIANT LawSelf
 INVARIANT LawDisjoint
 INVARIANT LawShift
+INVARIANT LawOriginFree
 INVARIANT BoxLaws
 INVARIANT ExtentsInRange
 PROPERTY Terminates
